@@ -151,4 +151,10 @@ def check(ctx: Ctx) -> str:
     tr = getattr(hs[0], "_parent", None) if hs else None
     ok = ok and isinstance(tr, ast.Try) and len(tr.body) == 1 and ast.unparse(tr.body[0]) == "return __obj(*args, **kwargs)"
     ctx.check(ok, "Context.call", "runtime:Context.call", "handler scope", "Context.call may catch only StopIteration, around `return __obj(*args, **kwargs)` only: anything broader hides exceptions raised by template callables", cc.loc())
+    # `include ... ignore missing` swallows TemplateNotFound of the *lookup* only: the emitted
+    # try holds nothing but the lookup, so a missing template inside the included one still
+    # propagates (rule owned by C05)
+    from . import c05
+
+    ctx.run_imported("C05", {"R1"}, c05.check)
     return __doc__ or ""
